@@ -495,6 +495,96 @@ fn cache_loss_then_append_case(rep: &mut Report, rng: &mut Rng) {
     }
 }
 
+/// every thread of a store is published on ONE broadcast channel, each with its own seq space: a
+/// subscriber of thread A is connected while another thread B of the same store appends frames with
+/// higher seqs, then A goes on. A's subscriber receives every frame of A exactly once and in order,
+/// and nothing of B.
+fn neighbour_thread_case(rep: &mut Report, rng: &mut Rng) {
+    let scratch = Scratch::new("c06nb");
+    let data_dir = scratch.path().join("data");
+    let ws = scratch.path().join("ws");
+    std::fs::create_dir_all(&ws).unwrap();
+    let app = Arc::new(ripd::verif_export::VerifApp::new(data_dir.clone(), ws.clone()));
+    let store = app.continuities();
+    let a = store.ensure_default().unwrap();
+    let a_before = rng.range(0, 3) as usize;
+    for k in 0..a_before {
+        let _ = store.append_message(&a, "a".into(), "o".into(), format!("a{k}"));
+    }
+    // B is a branch of A (frames 0 and 1 are its creation and lineage), then grows past A's head
+    let Ok((b, _, _)) = store.branch(&a, Some("neighbour".into()), None, None, "u".into(), "cli".into()) else { return };
+    let b_before = rng.range(0, 4) as usize;
+    for k in 0..b_before {
+        let _ = store.append_message(&b, "a".into(), "o".into(), format!("b{k}"));
+    }
+    let b_during = rng.range(2, 8) as usize;
+    let a_during = rng.range(1, 4) as usize;
+    let a_last = (a_before + a_during) as u64;
+    let rt = tokio::runtime::Builder::new_multi_thread().worker_threads(2).enable_all().build().unwrap();
+    let delivered: Vec<(String, u64)> = rt.block_on(async {
+        use axum::body::Body;
+        use axum::http::Request;
+        use http_body_util::BodyExt;
+        use tower::ServiceExt;
+        let req = Request::builder().method("GET").uri(format!("/threads/{a}/events")).body(Body::empty()).unwrap();
+        let resp = app.router.clone().oneshot(req).await.unwrap();
+        let (l_store, l_a, l_b) = (store.clone(), a.clone(), b.clone());
+        tokio::task::spawn_blocking(move || {
+            for k in 0..b_during {
+                let _ = l_store.append_message(&l_b, "a".into(), "o".into(), format!("b while a is watched {k}"));
+            }
+            for k in 0..a_during {
+                let _ = l_store.append_message(&l_a, "a".into(), "o".into(), format!("a while subscribed {k}"));
+            }
+        })
+        .await
+        .unwrap();
+        let mut body = resp.into_body();
+        let mut buf = String::new();
+        let mut out: Vec<(String, u64)> = Vec::new();
+        loop {
+            match tokio::time::timeout(std::time::Duration::from_millis(250), body.frame()).await {
+                Ok(Some(Ok(f))) => {
+                    if let Some(d) = f.data_ref() {
+                        buf.push_str(&String::from_utf8_lossy(d));
+                    }
+                }
+                _ => break,
+            }
+            while let Some(pos) = buf.find("\n\n") {
+                let block: String = buf.drain(..pos + 2).collect();
+                for line in block.lines() {
+                    if let Some(rest) = line.strip_prefix("data:") {
+                        if let Ok(v) = serde_json::from_str::<Value>(rest.trim_start()) {
+                            if let Some(seq) = v["seq"].as_u64() {
+                                out.push((v["session_id"].as_str().unwrap_or("?").to_string(), seq));
+                            }
+                        }
+                    }
+                }
+            }
+            if out.last().map(|(t, q)| t == &a && *q == a_last).unwrap_or(false) {
+                break;
+            }
+        }
+        out
+    });
+    drop(rt);
+    rep.evaluations += 1;
+    rep.traces_validated += 1;
+    rep.count("neighbour_thread_cases");
+    rep.nontrivial_case(&format!("nb {a_before} {b_before} {b_during} {a_during}"));
+    let want: Vec<(String, u64)> = (0..=a_last).map(|q| (a.clone(), q)).collect();
+    if delivered != want {
+        let got: Vec<String> = delivered.iter().map(|(t, q)| format!("{}{q}", if t == &a { "A" } else { "B" })).collect();
+        rep.oracle_failure(
+            "C06|thread-subscriber-disturbed-by-a-neighbour-thread",
+            &format!("a subscriber connected to thread A at head {a_before} while thread B of the same store appended {b_during} frames (up to seq {}) and A then {a_during}: received {got:?}, expected A0..=A{a_last}", 1 + b_before + b_during),
+            json!({"kind": "Thread", "a_frames_before": a_before + 1, "b_frames_before": b_before + 2, "b_frames_during": b_during, "a_frames_during": a_during}),
+        );
+    }
+}
+
 fn lag_case(rep: &mut Report, extra: usize) {
     let cap = std::fs::read_to_string("/verif/.build/gen.json")
         .ok()
@@ -622,6 +712,7 @@ pub fn run(opts: &Opts) -> Report {
     let n_cl = if opts.thorough { 100 } else { 12 } * opts.scale;
     for _ in 0..n_cl {
         cache_loss_then_append_case(&mut rep, &mut rng);
+        neighbour_thread_case(&mut rep, &mut rng);
     }
     lag_case(&mut rep, 50);
     for (kind, n, acts, rot) in cases {
